@@ -12,7 +12,9 @@ GEN_NOTE = (COMMON_NOTE + "The generator and the generated code are MODELLED (de
    "specification tree (hand-written mini-eo corpus + grammar-based random trees with a printed feature matrix) and executing the generated classes; identifier hygiene, "
    "docstrings, HTML unescaping are not modelled. For C01 C02 C03 C15 C16 C19 the emitted code is additionally tied STRUCTURALLY: tools/gen2instr.py (fail-closed, source text only) recovers the "
    "instruction lists of every generated serialize / deserialize / __init__ and Model/Recover.v compares them with the elaboration of the same tree inside Coq, so the theorems about the "
-   "elaborated lists apply to the code as emitted for all objects and bytes; trusted there: the recogniser's copy of the templates and Python's ast. ")
+   "elaborated lists apply to the code as emitted for all objects and bytes; trusted there: the recogniser's copy of the templates and Python's ast. For C02 C15 C16 the serialize "
+   "methods are moreover parsed generically (tools/py2stmt.py) into the statement language of Model/PyStmt.v, checked in Coq to equal render_serialize (elab tree), and Properties/C02R.v proves "
+   "that running those statements is Model/Ser.v (trusted: the parser and the ~250-line interpreter of the Python subset). ")
 
 CHECKS = {
  'C07': dict(
